@@ -1,0 +1,18 @@
+// SPDX-FileCopyrightText: 2026 The Pion community <https://pion.ly>
+// SPDX-License-Identifier: MIT
+
+//go:build verif
+
+// Machine-checked contracts for package client (comment-only file; compiled only with -tags verif,
+// and even then it adds no code). Checked by /verif/turnvc against the go/ssa of this package.
+
+package client
+
+//@      // ---- ConnectionBind reply parsing on the data connection (C10): the reply is the next STUN message of the
+//@      // stream, whatever the segmentation; nothing after it is consumed ("any data after belongs to the user")
+//@ func (*TCPAllocation).BindConnection
+//@   requires dataConn != nil && dataConn.TCPConn != nil && a.log != nil
+//@   ensures [C10:short-read] res == errIncompleteTURNFrame ==> streamErr
+//@   ensures [C10:consumes-exactly] res == nil ==> inPos == old(inPos) + 20 + inStream[old(inPos) + 2] * 256 + inStream[old(inPos) + 3]
+//@   ensures [C10:reply-is-stun] res == nil ==> inStream[old(inPos) + 4] == 0x21 && inStream[old(inPos) + 5] == 0x12 && inStream[old(inPos) + 6] == 0xA4 && inStream[old(inPos) + 7] == 0x42
+//@   fresh streamErr
